@@ -53,8 +53,10 @@ impl SubGridHeader {
         let dlat = parser.get_f64(offset + DLAT);
         let dlon = parser.get_f64(offset + DLON);
 
-        let num_rows = (((slat - nlat) / dlat).abs() + 1.0).floor() as u64;
-        let row_size = (((wlon - elon) / dlon).abs() + 1.0).floor() as u64;
+        // The number of steps is the nearest whole number: bounds and step sizes are
+        // decimal numbers, so the ratio is rarely exact (2.9999999999999996 for 3)
+        let num_rows = (((slat - nlat) / dlat).abs() + 1.5).floor() as u64;
+        let row_size = (((wlon - elon) / dlon).abs() + 1.5).floor() as u64;
 
         let num_nodes = parser.get_u32(offset + GSCOUNT) as u64;
         if Some(num_nodes) != num_rows.checked_mul(row_size) {
